@@ -3,6 +3,7 @@ package main
 
 import (
 	"rscheck/rules/c01"
+	"rscheck/rules/c02"
 	"rscheck/driver"
 	"rscheck/rules/c09"
 	"rscheck/rules/c18"
@@ -12,6 +13,7 @@ import (
 func main() {
 	driver.Main([]driver.PropDef{
 		c01.Def,
+		c02.Def,
 		c09.Def,
 		c18.Def,
 		c19.Def,
